@@ -136,7 +136,7 @@ def apply_to_params(ip, c, params):
         m_old = ip.call_ast(af, [getattr(ctx.ghost['old'], n) for n in names_], {})
         from .sym import zint as _zi
         ctx.oblige(f'{site}/measure', z3.And(_zi(m_new) >= 0, _zi(m_new) < _zi(m_old)), 'variant')
-    spec = ip.reg.contract_fn(c, 'spec')
+    spec = (ctx.ghost.get('spec_override') or {}).get(c.key) or ip.reg.contract_fn(c, 'spec')
     raised = None
     result = None
     if spec is not None:
